@@ -117,7 +117,10 @@ func outDir(env, def string) string {
 // Scratch returns a fresh directory under $VERIF_SCRATCH for one test; it is
 // removed when the test ends.
 func Scratch(t testing.TB) string {
-	base := os.Getenv("VERIF_SCRATCH")
+	base := os.Getenv("VERIF_FAST_SCRATCH")
+	if base == "" {
+		base = os.Getenv("VERIF_SCRATCH")
+	}
 	if base == "" {
 		base = "/verif/.scratch"
 	}
